@@ -20,7 +20,6 @@
 
 #include <arpa/inet.h>
 
-#include <array>
 #include <string>
 #include <string_view>
 #include <vector>
@@ -864,7 +863,7 @@ namespace
    {
       verif::rng r( V.seed * 7919 + 20 );
       rfcgen g( r );
-      const long n = V.thorough() ? 2000000 : 60000;
+      const long n = V.thorough() ? 500000 : 60000;
       const int nmut = V.thorough() ? 6 : 4;
       std::vector< item > grp;
       for( long i = 0; i < n; ++i ) {
